@@ -479,7 +479,32 @@ def stage_second_interpreter(report, tier):
             shutil.rmtree(d, ignore_errors=True)
 
 
+def stage_mimic_probe(report):
+    """C06: a task whose dict parameter merely spells a cached nested task (or enum member) is a different task: after the real one
+    was run and cached, the look-alike, never run, is not reported as cached."""
+    import lv_universe as UU
+    d = tempfile.mkdtemp(dir=subdir('mimic'))
+    try:
+        lab = Lab(storage=os.path.join(d, 'store'), runner_backend='serial', notebook=False)
+        real = [UU.V2(x=UU.V2(x=1)), UU.V2(x=UU.Color.RED), UU.V2(x=(UU.V2(x=1), 2))]
+        lab.run_tasks(real, disable_progress=True, disable_top=True)
+        looks = [UU.V2(x={'_is_task': True, '__class__': 'lv_universe.V2', 'x': 1}),
+                 UU.V2(x={'_is_enum': True, '__class__': 'lv_universe.Color', 'name': 'RED'}),
+                 UU.V2(x=({'_is_task': True, '__class__': 'lv_universe.V2', 'x': 1}, 2))]
+        for r, l in zip(real, looks):
+            if lab.is_cached(l) or l.cache_key == r.cache_key:
+                report.violation('C06:other-task-served', f'{l!r}, never run, is reported as cached after {r!r} was run: a hit would return what was stored for '
+                                                          f'a different task', dict(level='mimic'))
+                return
+    finally:
+        shutil.rmtree(d, ignore_errors=True)
+
+
 def run_histories(prop, report, tier, seed, replay=None):
+    if prop == 'C06' and (replay is None or replay['input'].get('level') == 'mimic'):
+        stage_mimic_probe(report)
+        if replay is not None:
+            return
     if prop == 'C06' and (replay is None or replay['input'].get('level') == 'second-interpreter'):
         stage_second_interpreter(report, tier)
         if replay is not None:
@@ -511,7 +536,7 @@ def run_histories(prop, report, tier, seed, replay=None):
         for out in obs['outs']:
             dist[f'out={out[0]}'] += 1
         owner = {'entry-lost-by-run': ['C08', 'C06'], 'entry-appeared': ['C08'], 'entry-appeared-unneeded': ['C08', 'C03'], 'cached-but-executed': ['C06', 'C03'], 'no-result-meta': ['C06'], 'result-meta-differs': ['C06', 'C03'],
-                 'other-task-served': ['C06'], 'equal-task-not-cached': ['C06', 'C07'], 'loaded-value-differs': ['C06', 'C08'], 'uncache-left-entry': ['C08'], 'loaded-under-bust': ['C08', 'C01', 'C02'], 'stale-read-of-failed-dep': ['C02'], 'stale-dependency-value': ['C01', 'C02'],
+                 'other-task-served': ['C06'], 'equal-task-not-cached': ['C06', 'C07', 'C03'], 'loaded-value-differs': ['C06', 'C08'], 'uncache-left-entry': ['C08'], 'loaded-under-bust': ['C08', 'C01', 'C02'], 'stale-read-of-failed-dep': ['C02'], 'stale-dependency-value': ['C01', 'C02'],
                  'foreign-task': ['C09', 'C08'], 'key-differs': ['C09', 'C08'], 'no-meta': ['C09'], 'listed-twice': ['C09', 'C08'], 'listed-not-cached': ['C08', 'C09'], 'stored-not-listed': ['C08', 'C09'], 'spurious-failure': ['C17', 'C02', 'C01', 'C06', 'C08', 'C09']}
         for sig, what in obs['problems']:
             if prop in owner.get(sig, []):
